@@ -26,7 +26,7 @@ func init() {
 				{0, 1, 1, 0, 0, 0, 1}, {0, 0, 0, 0, 1, 1, 9}, {1, 0, 2, 1, 0, 0, -2147483648}, {0, 0, 0, 0, 1, 0, 3},
 			}
 			if tier == "thorough" {
-				shapes = append(shapes, [][]int{{3, 3, 0, 0, 0, 0, 0}, {0, 4, 0, 0, 0, 0, 5}, {1, 0, 2, 2, 0, 0, 7}, {0, 0, 0, 0, 1, 2, 11}, {2, 0, 1, 2, 0, 0, 1}, {0, 0, 3, 1, 0, 0, 2}}...)
+				shapes = append(shapes, [][]int{{3, 3, 0, 0, 0, 0, 5}, {0, 4, 0, 0, 0, 0, 0}, {1, 0, 1, 2, 0, 0, 7}, {0, 0, 0, 0, 1, 2, 11}, {2, 0, 1, 2, 0, 0, 1}, {0, 0, 2, 1, 0, 0, 2}, {0, 0, 0, 0, 1, 1, 0}}...)
 			}
 			for _, a := range shapes {
 				js = append(js, J("socket", "VX_C05_RawRoundTrip", a...))
